@@ -534,9 +534,23 @@ func (g *seqGen) step() {
 				}
 			}
 		}
-		if dd := g.byFh(c.Fh); dd != nil && c.Fh2 != c.Fh && g.cfg.Avoid["rename-dir-cross"] {
-			if src := g.find(dd, c.Name); src != nil && src.kind == 2 {
-				c.Fh2 = c.Fh // keep directory renames inside one parent
+		if c.Fh2 != c.Fh && g.cfg.Avoid["rename-dir-cross"] {
+			// keep directory renames inside one parent (known finding KF-D20). The generator's own picture of the tree can
+			// be out of date (after a crash the server may be at an earlier prefix): ask the server what the name denotes.
+			isDir := false
+			if dd := g.byFh(c.Fh); dd != nil {
+				if src := g.find(dd, c.Name); src != nil && src.kind == 2 {
+					isDir = true
+				}
+			}
+			if !isDir {
+				l := NewCall("LOOKUP")
+				l.Fh, l.Name, l.NLen = c.Fh, c.Name, len(c.Name)
+				l = g.emit(l)
+				isDir = l.St == "OK" && l.RType == 2
+			}
+			if isDir {
+				c.Fh2 = c.Fh
 			}
 		}
 		if g.cfg.Avoid["rename-to-dotnames"] && (c.Name2 == "." || c.Name2 == "..") {
